@@ -236,6 +236,49 @@ func paramsSweep(c *Ctx, g *Gen) {
 		}
 		one(append([]byte{byte(len(rev))}, g.ParamsWire(rev)...), "all-reversed")
 	}
+	// values built WITHOUT the parser (typed fields assigned directly): every typed id alone, all together, random
+	// subsets with unknown ids.  The three declared fields parseParam has no case for (0x018 0x019 0x021) are the
+	// recorded finding C07/params-caseless-field: exercised on their own, never in the stream above.
+	caseless := map[uint32]bool{0x018: true, 0x019: true, 0x021: true}
+	unknown := []uint32{0x018, 0x019, 0x021, 0x02a, 0x02b, 0x000, 0x075, 0x076, 0x111, 0xf364, 0xffffffff}
+	for r := 0; r < reps; r++ {
+		for _, id := range all {
+			if caseless[id] {
+				continue
+			}
+			id := id
+			c.Count("params:direct-single")
+			oneValue(c, t, 2, 0, g.ParamsDirect(func(x uint32) bool { return x == id }, nil))
+		}
+		c.Count("params:direct-all")
+		oneValue(c, t, 2, 0, g.ParamsDirect(func(x uint32) bool { return !caseless[x] }, nil))
+		for k := 0; k < 10*reps; k++ {
+			var oth []uint32
+			for _, id := range unknown {
+				if c.Rng.Intn(5) == 0 {
+					oth = append(oth, id)
+				}
+			}
+			dens := 1 + c.Rng.Intn(12)
+			c.Count("params:direct-subset")
+			oneValue(c, t, 2, 0, g.ParamsDirect(func(x uint32) bool { return !caseless[x] && c.Rng.Intn(dens) == 0 }, oth))
+		}
+	}
+	for id := range caseless {
+		id := id
+		v := g.ParamsDirect(func(x uint32) bool { return x == id }, nil)
+		before := DumpHandler(v)
+		b, _ := SafeEncode(v)
+		h2 := t.New(0)
+		out := ParseInto(h2, 2, Exact(b))
+		reqv := fmt.Sprintf("benc %s %d %d %s", t.Name, 2, 0, before)
+		c.Eval(reqv, true)
+		c.Count("finding-class:params-caseless-field")
+		if out != "ok" || DumpHandler(h2) != before {
+			viol(c, Violation{Signature: "C07/params-caseless-field", What: fmt.Sprintf("the declared parameter field of id %#x is written by Encode but never filled by Parse (no case in parseParam): the value comes back as unknown content", id),
+				Input: reqv, Observed: out + " " + Trunc(DumpHandler(h2), 1200), Required: Trunc(before, 1200)})
+		}
+	}
 	// the wire list itself must survive: every id that is accepted must be re-emitted
 	for _, id := range append(append([]uint32{}, all...), extra...) {
 		body := append([]byte{1}, g.ParamsWire([]uint32{id})...)
